@@ -20,13 +20,17 @@ MODULES = ['prior', 'pool', 'neural', 'bounds.basic', 'bounds.periodic',
 
 
 class _BlockRewriter(ast.NodeTransformer):
-    def __init__(self):
+    def __init__(self, whole_module=False):
         self.rewrites = []
-        self.in_sample = False
+        # bounds/union.py and bounds/nautilus.py: the proposal loops may be
+        # delegated to helpers of any name, the literals 1000 / 10000 have no
+        # other use there
+        self.whole = whole_module
+        self.in_sample = whole_module
 
     def visit_FunctionDef(self, node):
         old = self.in_sample
-        self.in_sample = node.name == 'sample'
+        self.in_sample = self.whole or node.name == 'sample'
         self.generic_visit(node)
         self.in_sample = old
         return node
@@ -118,7 +122,7 @@ def load(pkgname, env, block=2):
         src = open(m.__file__).read()
         files.append(m.__file__)
         tree = ast.parse(src, m.__file__)
-        rw = _BlockRewriter()
+        rw = _BlockRewriter(whole_module=_leaf(mod) in ('union', 'nautilus'))
         tree = rw.visit(tree)
         ast.fix_missing_locations(tree)
         rewrites.extend((m.__file__, ln, v) for ln, v in rw.rewrites)
